@@ -351,8 +351,15 @@ def generate(rng, tier):
     cases = []
     # every conversion word x ordered pairs (all pairs in the thorough tier)
     pairs = [(a, b) for a in g.codes for b in g.codes]
+    # different rated currencies that are PRINTED with the same symbol ($, kr, kr., ¥ ...) are different currencies: the
+    # ordered pairs among them are always generated, as conversions and as operands of + - /
+    by_symbol = {}
+    for v in g.cur.values():
+        if v["code"] in g.rates:
+            by_symbol.setdefault(v["symbol"], []).append(v["code"])
+    same_symbol = [(a, b) for cs in by_symbol.values() for a in cs for b in cs if a != b]
     if quick:
-        pairs = rng.sample(pairs, 60)
+        pairs = rng.sample(pairs, 60) + same_symbol
     for i, (a, b) in enumerate(pairs):
         w = g.words[i % len(g.words)]
         text = "100 %s %s %s" % (a.lower(), w, b.lower())
@@ -379,6 +386,13 @@ def generate(rng, tier):
     # the recorded findings: a few cases of each mechanism, with the statement's expectation (see known_class)
     cases.extend(g.known_cases())
     cases.extend(g.pinned_histories())
+    for a, b in same_symbol:
+        x = Fraction(10)
+        c = g.conv(g.rates, x, b, a)
+        if b in g.tz_codes or a in g.tz_codes:
+            continue
+        cases.append(g.single("same-symbol-add", ("10 %s + 10 %s" % (a.lower(), b.lower()), g.expect("Money", a, x + c, scale=x))))
+        cases.append(g.single("same-symbol-ratio", ("10 %s / 10 %s" % (a.lower(), b.lower()), g.expect("Number", None, x / c))))
     # neighbours of the literal forms the statement does not promise: under the correspondence check only
     for text in ["1 usd to tmt", "10 usd to лв", "$ 10", "usd 10", "10kusd"]:
         cases.append(g.single("limit", (text, {"typ": "Money", "cur": None})))
